@@ -43,6 +43,15 @@ type c13Case struct {
 	genSkip    string   // why the reverse direction was skipped
 	shape      string   // top-level shape of the extracted CUE (skeleton cases only)
 	flags      string   // facts about the extracted CUE used for class tags (c13AstFlags)
+	noGen      bool     // a confirmation probe: no reverse direction
+
+	// filled by the harness after consulting the oracle (c13_confirm.go)
+	judged         []c13Judged
+	class          []string    // per instance: confirmed root-cause class of a forward divergence
+	confirm        [][2]string // per instance: the confirming (schema, instance)
+	confirmVerdict [][3]string // (schema, instance, importer verdict) of the confirming pairs
+	revClass       []string    // per instance: confirmed class of a reverse divergence
+	revConfirm     [][3]string // confirming (schema, generated schema, instance) triples
 	skel       *skelCase
 	evalMillis int64
 }
@@ -114,7 +123,6 @@ func c13Eval(ctx *cue.Context, cs *c13Case, doGen bool) {
 	if cs.skel != nil {
 		cs.shape = c13Shape(f)
 	}
-	cs.flags = c13AstFlags(f)
 	cv := ctx.BuildFile(f)
 	if cv.Err() != nil {
 		cs.importErr = "compile-error"
@@ -124,6 +132,7 @@ func c13Eval(ctx *cue.Context, cs *c13Case, doGen bool) {
 		cs.importErr = "compile-error"
 		return
 	}
+	cs.flags = c13AstFlags(ctx, f)
 	for _, it := range cs.instTxt {
 		ie, err := cuejson.Extract("instance.json", []byte(it))
 		if err != nil {
@@ -172,9 +181,7 @@ func runC13(c *Cfg) {
 		c13Worker()
 		return
 	}
-	// NewRng(seed+1) is NewRng(seed) advanced by one step, so consecutive seeds would replay the
-	// same cases shifted by one: decorrelate through one mixing step
-	r := NewRng(c.Seed*1000003 + 12345).Sub()
+	r := NewRng(c.Seed)
 	var cases []*c13Case
 
 	// 1. fixed corpus: minimal inputs of every divergence seen so far + witnesses of the
@@ -198,7 +205,7 @@ func runC13(c *Cfg) {
 
 	// 2. skeleton cases (internal correspondence with state.finalize)
 	if !c.Focus {
-		nSkel := c.Pick(600, 6000)
+		nSkel := c.Pick(500, 4000)
 		for i := 0; i < nSkel; i++ {
 			sk := genSkelCase(r.Sub())
 			cs := &c13Case{schema: sk.schema, schemaTxt: renderJV(sk.schema), skel: sk}
@@ -207,8 +214,8 @@ func runC13(c *Cfg) {
 	}
 
 	// 3. generated schemas with schema-directed and random instances
-	nSchemas := c.Pick(2000, 24000)
-	nInst := c.Pick(10, 12)
+	nSchemas := c.Pick(1500, 12000)
+	nInst := c.Pick(8, 10)
 	if c.Focus {
 		nSchemas = c.Pick(4000, 40000)
 	}
@@ -242,9 +249,38 @@ func runC13(c *Cfg) {
 	// `timeout`, never as a finding.
 	c13RunWorkers(c, cases)
 
+	// consult the oracle, then confirm the root cause of every forward divergence by a targeted
+	// transformation evaluated on the real importer (c13_confirm.go)
+	oracle := c13FindOracle()
+	if oracle == nil {
+		c.Count("oracle-unavailable")
+	} else {
+		c13Judge(oracle, cases)
+		c13Confirm(c, oracle, cases)
+		c13ConfirmReverse(c, oracle, cases)
+	}
+
 	// emit in generation order (deterministic)
+	emitted := map[string]bool{}
 	for _, cs := range cases {
 		c13Emit(c, cs)
+		// the confirming pairs, untagged: the importer must agree with the oracle on them
+		for _, cv := range cs.confirmVerdict {
+			line := "valid " + H(cv[0]) + " " + H(cv[1])
+			if !emitted[line] {
+				emitted[line] = true
+				c.Op("O", line, cv[2])
+				c.Count("confirming-pairs")
+			}
+		}
+		for _, rc := range cs.revConfirm {
+			line := "agree " + H(rc[0]) + " " + H(rc[1]) + " " + H(rc[2])
+			if !emitted[line] {
+				emitted[line] = true
+				c.Op("O", line, "same")
+				c.Count("confirming-pairs")
+			}
+		}
 	}
 
 	// witnesses of the `_false` theorems, evaluated on the implementation alone
@@ -296,7 +332,10 @@ func c13Emit(c *Cfg, cs *c13Case) {
 			nTrue++
 		}
 		c.Count("verdict:" + v)
-		tag := c13Class(cs.schema, cs.insts[i], cs.flags)
+		tag := ""
+		if cs.class != nil {
+			tag = cs.class[i]
+		}
 		c.OpTag("O", tag, "valid "+sh+" "+H(it), v)
 		if tag != "" {
 			c.Count("tagged:" + tag)
@@ -308,10 +347,12 @@ func c13Emit(c *Cfg, cs *c13Case) {
 		return
 	}
 	c.Count("reverse:compared")
-	g, _ := parseJV(cs.genTxt)
 	gh := H(cs.genTxt)
 	for i, it := range cs.instTxt {
-		tag := c13GenClass(cs.schema, g, cs.insts[i], cs.flags)
+		tag := ""
+		if cs.revClass != nil {
+			tag = cs.revClass[i]
+		}
 		c.OpTag("O", tag, "agree "+sh+" "+gh+" "+H(it), "same")
 		if tag != "" {
 			c.Count("tagged:" + tag)
